@@ -502,8 +502,9 @@ Fixpoint cframes_at (pos : list Z) (is : list (option label * option cframe * ci
   | _, _ => []
   end.
 
-(* write_code.  Also returns the code array and the label map (for the statement of the theorems). *)
-Definition write_code_attr (c : ccode) : W (bytes * (bytes * labmap)) :=
+(* write_code.  Also returns the code array, the label map and the positions of the instructions in the
+   final attempt (for the statement of the theorems). *)
+Definition write_code_attr (c : ccode) : W (bytes * (bytes * labmap * list Z)) :=
   match c_max c with
   | None => fun _ => ERR
   | Some (max_stack, max_locals) =>
@@ -541,7 +542,7 @@ Definition write_code_attr (c : ccode) : W (bytes * (bytes * labmap)) :=
             nattr (c_tinvis c) (fun l => wattr s_RITAnn (write_type_annotations labs l)) ++
             map wunknown (c_unknown c)) ;;
           (* code_length was checked by the loop (0 < length <= 65535) *)
-          ret (be16 max_stack ++ be16 max_locals ++ frame_code w ++ exc ++ attrs, (w, labs))
+          ret (be16 max_stack ++ be16 max_locals ++ frame_code w ++ exc ++ attrs, (w, labs, run_pos Wd 0%N init es))
       end
   end.
 
@@ -557,7 +558,7 @@ Record cmethod := {
   md_parameters : option (list (option bytes * Z));
   md_unknown : list raw_attr }.
 (* the Code attribute's code array and label map, for the method that has one *)
-Definition code_aux := option (bytes * labmap).
+Definition code_aux := option (bytes * labmap * list Z).
 Definition write_method (m : cmethod) : W (bytes * code_aux) :=
   n <- put_utf8 (md_name m) ;; d <- put_utf8 (md_desc m) ;;
   dep <- seqW (battr (md_deprecated m) (wattr_fix s_Deprecated 0 (ret [])) ++
